@@ -895,28 +895,28 @@ class Ctx:
     def ex_BoolOp(self, e, fr):
         is_and = isinstance(e.op, ast.And)
         if self.spec_mode:
-            # specification expressions: no short-circuit forking when operands are symbolic booleans
-            vals = []
+            # specification expressions: symbolic booleans are accumulated into one formula instead of
+            # forking; concrete operands short-circuit as in Python; other values follow Python's
+            # value semantics (`a and b` is a or b)
+            acc = []
+            v = None
             for x in e.values:
                 v = self.eval(x, fr)
                 if isinstance(v, Sym) and v.k == "bool":
-                    vals.append(v)
-                    continue
-                if isinstance(v, bool):
-                    if is_and and not v:
-                        return False if not vals else Sym(z3.BoolVal(False), "bool")
-                    if (not is_and) and v:
-                        return True if not vals else Sym(z3.BoolVal(True), "bool")
+                    acc.append(v.t)
                     continue
                 t = self.truthy(v)
-                if is_and and not t:
-                    return v
-                if (not is_and) and t:
-                    return v
-            if not vals:
-                return is_and
-            ts = [x.t for x in vals]
-            return Sym(z3.And(*ts) if is_and else z3.Or(*ts), "bool")
+                if (is_and and not t) or ((not is_and) and t):
+                    if not acc:
+                        return v
+                    if isinstance(v, bool):
+                        return ops.mk(z3.And(*acc, z3.BoolVal(False)) if is_and else z3.Or(*acc, z3.BoolVal(True)), "bool")
+                    raise Unsupported("spec connective mixing symbolic booleans and non-boolean values")
+                if acc and not isinstance(v, bool):
+                    raise Unsupported("spec connective mixing symbolic booleans and non-boolean values")
+            if acc:
+                return ops.mk(z3.And(*acc) if is_and else z3.Or(*acc), "bool")
+            return v
         v = None
         for x in e.values:
             v = self.eval(x, fr)
